@@ -271,6 +271,25 @@ def pSticky (fs : FS) (cwd : CPath) (path : Bytes) : Option Bool :=
   | some (.file _ m _) => some (m &&& 0o1000 ≠ 0)
   | _ => none
 
+/-- prefixes of a path string at component boundaries, shortest first: "/a/b" ↦ ["/a", "/a/b"] -/
+def strPrefixes (p : Bytes) : List Bytes :=
+  let cs := Bytes.splitOn slash p
+  (List.range cs.length).filterMap fun k =>
+    if cs.getD k [] = [] then none else some (Bytes.joinWith [slash] (cs.take (k + 1)))
+
+/-- What `mkdir(2)` — hence `os.makedirs` — runs into when a symbolic link that does not resolve
+    stands on the way: the first prefix of `p` that does not exist (links followed) is itself
+    there, a dangling link.  `ENOENT` when it is a proper prefix (nothing can be created through
+    it), `EEXIST` when it is `p` itself.  `none`: no such obstacle, the directories can be made at
+    the canonical path `realpath p`. -/
+def danglingOnPath (fs : FS) (cwd : CPath) (p : Bytes) : Option Errno :=
+  match (strPrefixes p).find? (fun q => ¬ pExists fs cwd q) with
+  | none => none
+  | some q =>
+    if pLexists fs cwd q then
+      some (if (strPrefixes p).getLast? = some q then .EEXIST else .ENOENT)
+    else none
+
 def toStr (p : CPath) : Bytes := if p = [] then [slash] else p.flatMap fun n => slash :: n
 
 /-- `posixpath.realpath` (non-strict): symlinks resolved where they exist, missing tails kept.
